@@ -168,6 +168,13 @@ pub fn deep_asts() -> Vec<Ast> {
         }
         out.push(Ast::fp("X", false, n));
     }
+    // long names that differ only in their last character
+    for l in [8usize, 16, 31, 32, 33, 64, 65, 128, 256, 300] {
+        let base: String = "valve_of_the_primary_cooling_circuit_is_".chars().cycle().take(l).collect();
+        let (n1, n2) = (format!("{base}a"), format!("{base}b"));
+        out.push(Ast::bin(Bin::And, Ast::var(&n1), Ast::not(Ast::var(&n2))));
+        out.push(Ast::bin(Bin::Iff, Ast::var(&n2), Ast::bin(Bin::Or, Ast::var(&base), Ast::var(&n1))));
+    }
     for len in 5..=9usize {
         for off in 0..6usize {
             let l: Vec<Ast> = (0..len).map(|i| term(i * 5 + off)).collect();
